@@ -62,6 +62,10 @@ def plan(tier, seed):
                                depth=11 if tier == "quick" else 14,
                                tier=tier, maxinflight=2,
                                starts=list(range(part, 256, 4))))
+    for i in range(4):
+        shards.append(dict(seed=seed * 4 + i, migration=True, tier=tier,
+                           count=6 if tier == "quick" else 40,
+                           steps=200 if tier == "quick" else 600))
     shards.append(dict(seed=seed, foreign=True, tier=tier))
     shards.append(dict(seed=seed, registration=True, tier=tier))
     return shards
@@ -363,8 +367,98 @@ def registration_leg(params, res):
         ecmod.randrange = old_rr
 
 
+def migration_leg(params, res):
+    """closed loop in the kernel only, no state is injected: two frames of a
+    registered group circulate in wire order (the bus answers every enabled
+    writer correctly), user space feeds a fresh frame for every frame it is
+    handed and for every lost one; the CPU that handles the returning
+    frames changes now and then (the interface's interrupt migrates). The
+    longest run of frames that pass the dispatcher without the group's
+    program is bounded by two, whichever CPUs handled them."""
+    import os
+    import random
+    rng = random.Random(params["seed"] * 977 + 13)
+    allowed = sorted(os.sched_getaffinity(0))
+    if len(allowed) < 2:
+        res.count("migration_leg_skipped_one_cpu")
+        return
+    for hist in range(params["count"]):
+        layout = rng.choice(["w", "wf", "r", "ww"])
+        index = rng.choice([5, 0, 63, 17])
+        p_switch = rng.choice([0.0, 0.1, 0.3, 0.5])
+        p_loss = rng.choice([0.0, 0.0, 0.05, 0.15])
+        with kern.session() as sess:
+            w = dispatch.World(sess, layout, True, index)
+            try:
+                runs_pos = [d.__dict__["runs"] for d in w.devs]
+
+                def runs():
+                    return sum(struct.unpack_from("<I", w.props, p_)[0]
+                               for p_ in runs_pos)
+                # the group is operational (user space sets this when the
+                # terminals have reached OP)
+                w.props[w.wpos:w.wpos + 4] = struct.pack("<I", 1)
+                fresh = w.frame((0, tuple(False for _ in w.writers),
+                                 tuple("0" for _ in w.writers)))
+                wire = [fresh, fresh]
+                cpu = rng.choice(allowed)
+                os.sched_setaffinity(0, {cpu})
+                cpus_used = {cpu}
+                streak = worst = 0
+                trace = []
+                for step in range(params["steps"]):
+                    f = wire.pop(0)
+                    if rng.random() < p_loss:
+                        wire.append(fresh)      # time-out, fed in again
+                        trace.append("lost")
+                        continue
+                    idx0, enabled, wk = w.abstract(f)
+                    f = w.frame((idx0, enabled, tuple(
+                        "ok" if en else "0" for en in enabled)))
+                    if rng.random() < p_switch:
+                        cpu = rng.choice(allowed)
+                        os.sched_setaffinity(0, {cpu})
+                        cpus_used.add(cpu)
+                    before = runs()
+                    ret, out = w.dl.run_k(f)[:2]
+                    ran = runs() != before
+                    trace.append((cpu, ret, ran))
+                    res.count("migration_frames")
+                    if ran:
+                        streak = 0
+                    else:
+                        streak += 1
+                        worst = max(worst, streak)
+                    if ret == dispatch.TX:
+                        wire.append(bytes(out))
+                    else:
+                        wire.append(fresh)
+                desc = dict(migration=True, layout=layout, index=index,
+                            p_switch=p_switch, p_loss=p_loss,
+                            cpus=len(cpus_used))
+                res.case(["migration", hist, desc],
+                         nontrivial=len(cpus_used) > 1)
+                res.count("migration_histories")
+                if len(cpus_used) > 1:
+                    res.count("migration_histories_on_several_cpus")
+                res.count(f"migration_longest_run_without_program[{worst}]")
+                if worst > 2:
+                    res.violation(
+                        "unexplained:three-frames-without-program",
+                        f"closed loop, two frames in flight in wire order, "
+                        f"{len(cpus_used)} CPUs: {worst} consecutive frames "
+                        f"passed without the group's program [{desc}]",
+                        case=desc, witness=trace[-12:])
+            finally:
+                os.sched_setaffinity(0, set(allowed))
+                w.close()
+
+
 def run_shard(params):
     res = Result()
+    if params.get("migration"):
+        migration_leg(params, res)
+        return res
     if params.get("registration"):
         registration_leg(params, res)
         return res
